@@ -17,8 +17,8 @@ import WtfModel.Basic.Utf8
                      pass 1 `coerce`: utf8.DecodeRune over the string; every byte at which it reports (RuneError, 1) becomes the
                                       marker byte 0xFF (which occurs in no valid UTF-8 text), every other rune is copied
                      pass 2 `quote`:  bytewise: `"` `\` as \" \\ ; \b \f \n \r \t short forms; other bytes < 0x20 and `<` `>` `&`
-                                      as \u00XY (lower-case hex); the marker as �; E2 80 A8 / E2 80 A9 (U+2028 / U+2029) as
-                                        /  ; every other byte (0x7F included) unchanged
+                                      as \u00XY (lower-case hex); the marker as \ufffd; E2 80 A8 / E2 80 A9 (U+2028 / U+2029) as
+                                      \u2028 / \u2029; every other byte (0x7F included) unchanged
                      `proj` applies pass 1 to every option string (its parameter `utf8`); the text applies pass 2.  The normalised
                      query sits in the `KeyData` as it is, so the text applies both passes to it.
     int              strconv.AppendInt(_, 10): `-` and decimal digits without leading zeros
